@@ -315,6 +315,23 @@ class Prop(core.Prop):
         except Exception as e:
             vs.append(viol('raises', ('interpDimension', 'nd-coordinate'), '%s: %r' % (type(e).__name__, e),
                            exc=type(e).__name__, dim='z-nd', **scope))
+        # the same with targets beyond each column's source range and extrapolate=True: the keyword reaches every
+        # column, the linear profile is continued
+        try:
+            tgt2 = tgt.copy()
+            tgt2[:, 0, :] = src.min(1) - 1.5
+            tgt2[:, -1, :] = src.max(1) + 2.5
+            nv[...] = tgt2
+            g = f.interpDimension('z', nv, coordkey='zc', extrapolate=True)
+            got = np.asarray(g.variables['A'][...], 'd')
+            want = 2. * tgt2 + 1. + np.arange(3)[None, None, :]
+            if got.shape != want.shape or relerr(got, want) > 1e-10:
+                vs.append(viol('interpolated-values', ('interpDimension', 'nd-coordinate', 'extrapolate'),
+                               'per-column coordinates src %s, targets beyond the range: %s expected %s'
+                               % (xs, rfile._short(got), rfile._short(want)), dim='z-nd', **scope))
+        except Exception as e:
+            vs.append(viol('raises', ('interpDimension', 'nd-coordinate', 'extrapolate'), '%s: %r' % (type(e).__name__, e),
+                           exc=type(e).__name__, dim='z-nd', **scope))
         return vs
 
     def run_sigma(self, case):
